@@ -4,6 +4,7 @@ import (
 	"fmt"
 	"github.com/orda-io/orda/client/pkg/errors"
 	"github.com/orda-io/orda/client/pkg/iface"
+	"github.com/orda-io/orda/client/pkg/model"
 	"github.com/orda-io/orda/client/pkg/orda"
 
 	"github.com/orda-io/orda/server/constants"
@@ -52,10 +53,22 @@ func (its *Manager) GetLatestDatatype() (iface.Datatype, uint64, errors.OrdaErro
 	}
 	if snapshotDoc != nil {
 		lastSseq = snapshotDoc.Sseq
+		// The metadata of a snapshot carries the operation ID of whoever took it. The clock is wanted, the identity is
+		// not: operations issued on the rebuilt datatype (the patch API) belong to this client, numbered from 1.
+		type identified interface {
+			GetOpID() *model.OperationID
+		}
+		ownCUID := ""
+		if id, ok := datatype.(identified); ok {
+			ownCUID = id.GetOpID().CUID
+		}
 		if err = datatype.SetMetaAndSnapshot([]byte(snapshotDoc.Meta), snapshotDoc.Snapshot); err != nil {
 			return nil, 0, err
 		}
 		datatype.ResetWired()
+		if id, ok := datatype.(identified); ok && ownCUID != "" {
+			id.GetOpID().CUID = ownCUID
+		}
 	}
 	opList, sseqList, err := its.managers.Mongo.GetOperations(its.ctx, its.datatypeDoc.DUID, lastSseq+1, constants.InfinitySseq)
 	if err != nil {
